@@ -246,6 +246,7 @@ func (c croppedLines) Render(width, height int) *term.Buffer {
 		if i > 0 {
 			bb.Newline()
 		}
+		line = showControlChars(line)
 
 		selected := c.selectFrom <= i && i < c.selectTo
 		extendStyle := c.extendStyle && len(line) > 0
@@ -269,6 +270,34 @@ func (c croppedLines) Render(width, height int) *term.Buffer {
 		bb.WriteStyled(acc)
 	}
 	return bb.Buffer()
+}
+
+// Replaces control characters with their caret notation (like ^I) in reverse
+// video. This is how term.BufferBuilder shows such characters; doing it before
+// cropping makes the width used for cropping agree with the width that is
+// actually taken up (the wcwidth of a control character is 0, but its caret
+// notation occupies 2 columns).
+func showControlChars(t ui.Text) ui.Text {
+	var newt ui.Text
+	for _, seg := range t {
+		from := 0
+		for i, r := range seg.Text {
+			if (r < 0x20 && r != '\n') || r == 0x7f {
+				if from < i {
+					newt = append(newt, &ui.Segment{Style: seg.Style, Text: seg.Text[from:i]})
+				}
+				newt = append(newt, ui.StyleSegment(
+					&ui.Segment{Style: seg.Style, Text: "^" + string(r^0x40)}, ui.Inverse))
+				from = i + 1
+			}
+		}
+		if from == 0 {
+			newt = append(newt, seg)
+		} else if from < len(seg.Text) {
+			newt = append(newt, &ui.Segment{Style: seg.Style, Text: seg.Text[from:]})
+		}
+	}
+	return newt
 }
 
 func (w *listBox) Handle(event term.Event) bool {
